@@ -106,7 +106,7 @@ def execute(sc, sim):
     st = cm.Stats()
     st.declare("task_after_same_task_on_other_file", "edit_changed_gap_degree", "node_gap_degree_2plus", "gaps_at_several_levels", "unary_node",
                "two_task_instances_interleaved", "discontinuous_tree_refused_by_bracket_writer",
-               "disco_order_nonidentity")
+               "disco_order_nonidentity", "reordering_of_tree_made_continuous")
     viols = []
     A, B, fmt = sc["A"], sc["B"], sc["fmt"]
     AB = A + B
@@ -288,7 +288,59 @@ def execute(sc, sim):
                                                  edit=sc.get("edit", "root_attach"),
                                                  expected=[len(runs) - 1, runs],
                                                  got=[g, blocks], sentence=j)])
+    # ---- trees as the reader delivers them, after a pipeline that changes yields (whatever
+    # the reader recorded about a node is stale then), binarized and reordered
+    pipe = PIPES[sc["io_seed"] % len(PIPES)]
+    body = [["trans", "t", name, {}] for name in pipe] + [["trans", "t", "binarize", {}],
+                                                          ["call", "disco_order", "t", sc["mode"]]]
+    src = "/sim/w/AB%s" % EXT[fmt]
+    sopts = {"quiet": True}
+    if sc.get("emptypos"):
+        sopts["brackets_emptypos"] = True
+    obs = sim.run({"files": {src: files[src]}, "io_seed": sc["io_seed"],
+                   "sessions": [{"id": "r", "on_error": "continue",
+                                 "ops": [["reader", "r", fmt, src, "utf-8", sopts],
+                                         ["loop", "r", "t", body]]}]})
+    st.add_obs(obs)
+    recs = obs["sessions"].get("r", [])[1:]
+    i = 0
+    while i < len(recs):
+        if recs[i]["op"] != "next" or "exc" in recs[i] or recs[i].get("ok") == "STOP":
+            break
+        chunk = recs[i + 1:i + 1 + len(body)]
+        i += 1
+        while i < len(recs) and recs[i]["op"] != "next":
+            i += 1
+        if len(chunk) < len(body) or any("exc" in x for x in chunk[:-1]) \
+                or any(x["op"] == "next" for x in chunk):
+            continue                      # a step was refused or dropped the tree
+        tree = chunk[-2]["ok"]
+        do = chunk[-1]
+        if tree is None or treeview.wellformed(tree):
+            continue
+        st.check("reordering_of_transformed_reader_trees")
+        nt = treeview.node_tokens(tree)
+        gap = max(len(model.runs(nt[n_["id"]])) - 1 for n_ in tree["nodes"] if n_["c"])
+        n = len([n_ for n_ in tree["nodes"] if not n_["c"]])
+        if "exc" in do:
+            return done(sc, st, [cm.viol("C16/disco_order/raised/%s" % do["exc"],
+                                         mode=sc["mode"], after=pipe)])
+        if sorted(do["ok"]) != list(range(1, n + 1)):
+            return done(sc, st, [cm.viol("C16/disco_order/not-a-permutation", got=do["ok"],
+                                         mode=sc["mode"], after=pipe)])
+        if gap == 0:
+            st.probe("reordering_of_tree_made_continuous")
+            if do["ok"] != list(range(1, n + 1)):
+                return done(sc, st, [cm.viol("C16/disco_order/continuous-tree-not-identity",
+                                             got=do["ok"], mode=sc["mode"], after=pipe)])
     return done(sc, st, viols)
+
+
+PIPES = [["root_attach", "negra_mark_heads", "boyd_split", "raising"],
+         ["punctuation_delete", "negra_mark_heads"],
+         ["root_attach", "negra_mark_heads"],
+         ["negra_mark_heads", "boyd_split", "raising"],
+         ["negra_mark_heads"]]
 
 
 def judge_reports(reports, name, tb, path, st):
